@@ -671,7 +671,8 @@ impl<'a> Searcher<'a> {
                                         if let Ok(file) = open_file(&path) {
                                             if let Ok(mut archive) = zip::ZipArchive::new(file) {
                                                 for i in 0..archive.len() {
-                                                    if self.query.limit > 0
+                                                    if !self.is_buffered()
+                                                        && self.query.limit > 0
                                                         && self.query.limit <= self.found
                                                     {
                                                         break;
